@@ -22,8 +22,8 @@ CLAIMED = {
                 'a successful result keeps every earlier binding (extends), is again a well-formed substitution (ss_ok), equal terms unify with the identical substitution, '
                 'different constants fail, an unbound variable against a constant succeeds adding exactly that binding, every new binding is of a previously unbound variable, '
                 'and SOUNDNESS: on success the two terms are identical when resolved under the result, to every depth, with $_ as a wildcard (spec req/sound, lemmas for reflexivity, symmetry and stability under extension) - '
-                'for atoms, numbers, variables and complex terms nested arbitrarily. PARTIAL: positions holding lists are not constrained by the proved soundness clause, and general completeness / minimality are not under proof; '
-                'those are covered by a BOUNDED comparison with a reference unifier (labelled bounded in the evidence, never counted as proved).',
+                'for atoms, numbers, variables, complex terms and lists (a tail variable stands for the rest of the other list), nested arbitrarily. PARTIAL: general completeness (success whenever a unifier exists) and general minimality are not under proof; '
+                'they are covered by a BOUNDED comparison with a reference unifier (labelled bounded in the evidence, never counted as proved).',
         'note': 'Trusted: derived PartialEq/Clone (T1), vstd + Rc<T>: PartialEq axiom (T2), rewrite rules R2/R3/R6/R7 (T4). Termination of unify is not proved. Float/float inequality is an exec f64 comparison (unspecified in Verus).',
         'technique': 'contract-based deductive verification (Verus) of extracted real code',
         'design_ref': 'DESIGN.md 5/C06',
